@@ -29,6 +29,8 @@ pub struct EnvHistory {
     pub step_size: u64,
     pub trading: bool,
     pub seed: u64,
+    #[serde(default)]
+    pub t0: u64,
     pub ops: Vec<EOp>,
     #[serde(default)]
     pub note: String,
@@ -145,7 +147,7 @@ fn run_sim<S: Sim>(mut env: S, h: &EnvHistory, fails: &mut Vec<Failure>) {
     let n = env.assets();
     let mut rng = Xoroshiro128StarStar::seed_from_u64(h.seed);
     // plain books driven in lock-step (the "stand-alone single-asset books")
-    let mut plain: Vec<OrderBook<L>> = (0..n).map(|a| OrderBook::new(0, h.ticks[a], h.trading)).collect();
+    let mut plain: Vec<OrderBook<L>> = (0..n).map(|a| OrderBook::new(h.t0, h.ticks[a], h.trading)).collect();
     let mut queue: Vec<Instr> = vec![];
     let mut k_steps = 0usize;
     let mut live_rows: Vec<Vec<Vec<u32>>> = vec![vec![]; n];
@@ -230,6 +232,7 @@ fn run_sim<S: Sim>(mut env: S, h: &EnvHistory, fails: &mut Vec<Failure>) {
                     let rec = env.trade_vols(a);
                     if rec.len() != k_steps || *rec.last().unwrap() as u64 != tv {
                         fail(k, "C11.step_volume", format!("asset {}: recorded traded volume {:?} (len {}), the trades of this step sum to {} after {} steps", a, rec.last(), rec.len(), tv, k_steps), fails);
+                        fail(k, "C08.step_volume", format!("asset {}: the step's traded volume does not count exactly that step's trades", a), fails);
                     }
                     // C11: every series has k entries and entry k equals the live value
                     live_rows[a].push(live_series_row(env.book(a)));
@@ -241,6 +244,9 @@ fn run_sim<S: Sim>(mut env: S, h: &EnvHistory, fails: &mut Vec<Failure>) {
                             for j in 0..k_steps {
                                 if s[j] != live_rows[a][j][si] {
                                     fail(k, "C11.faithful", format!("asset {}: series {} entry {} is {} but the live book showed {} at the end of that step", a, si, j, s[j], live_rows[a][j][si]), fails);
+                                    if n > 1 {
+                                        fail(k, "C14.own_series", format!("asset {}: its recorded history does not hold its own values", a), fails);
+                                    }
                                     break;
                                 }
                             }
@@ -249,6 +255,9 @@ fn run_sim<S: Sim>(mut env: S, h: &EnvHistory, fails: &mut Vec<Failure>) {
                     // C10: cached snapshot = live level-2 data
                     if l2key(env.cached(a)) != l2key(&env.book(a).level_2_data()) {
                         fail(k, "C10.snapshot", format!("asset {}: the cached level-2 snapshot differs from the live book after the step", a), fails);
+                        if n > 1 {
+                            fail(k, "C14.own_snapshot", format!("asset {}: level_2_data()[{}] is not this asset's own level-2 data after the step", a, a), fails);
+                        }
                     }
                 }
             }
@@ -279,9 +288,9 @@ pub fn run_env_history(h: &EnvHistory) -> Vec<Failure> {
     let res = std::panic::catch_unwind(std::panic::AssertUnwindSafe(|| {
         let mut f = vec![];
         if h.env == "market_env" {
-            run_sim(MarketEnv::<2, L>::new(0, [h.ticks[0], h.ticks[1]], h.step_size, h.trading), h, &mut f);
+            run_sim(MarketEnv::<2, L>::new(h.t0, [h.ticks[0], h.ticks[1]], h.step_size, h.trading), h, &mut f);
         } else {
-            run_sim(Env::<L>::new(0, h.ticks[0], h.step_size, h.trading), h, &mut f);
+            run_sim(Env::<L>::new(h.t0, h.ticks[0], h.step_size, h.trading), h, &mut f);
         }
         f
     }));
@@ -297,12 +306,22 @@ pub fn run_env_history(h: &EnvHistory) -> Vec<Failure> {
 
 fn random_env_history(rng: &mut Xoroshiro128StarStar, market: bool, overrun: bool, len: usize) -> EnvHistory {
     let mut ops = vec![];
-    let step_size = if overrun { 2 } else { 64 };
+    // batches never exceed the step size (that domain is the recorded C05 finding) - but small step sizes are filled EXACTLY, and the clock need not start on a multiple
+    let step_size: u64 = if overrun { 2 } else { [64, 4, 7, 64][rng.gen_range(0..4)] };
+    let t0: u64 = if rng.gen_bool(0.5) { 0 } else { rng.gen_range(1..50) };
+    let mut in_batch = 0u64;
     for _ in 0..len {
+        if !overrun && in_batch >= step_size {
+            ops.push(EOp::Step);
+            in_batch = 0;
+        }
         let r = rng.gen_range(0..100);
         let asset = rng.gen_range(0..2);
         let side = if rng.gen_bool(0.5) { MSide::Bid } else { MSide::Ask };
-        ops.push(if r < 40 {
+        if r >= 77 { in_batch = 0; } else if r < 72 { in_batch += 1; }
+        ops.push(if r < 2 {
+            EOp::Place { asset, side, vol: rng.gen_range(1..8), trader: 1, price: Some(if rng.gen_bool(0.5) { u32::MAX } else { 0 }) }
+        } else if r < 40 {
             EOp::Place { asset, side, vol: rng.gen_range(1..8), trader: rng.gen_range(0..3), price: if rng.gen_bool(0.8) { Some((20 + rng.gen_range(0..5)) * 2) } else { None } }
         } else if r < 44 {
             EOp::Place { asset, side, vol: 3, trader: 0, price: Some(41) }
@@ -320,7 +339,7 @@ fn random_env_history(rng: &mut Xoroshiro128StarStar, market: bool, overrun: boo
     }
     ops.push(EOp::Step);
     ops.push(EOp::Step);
-    EnvHistory { env: if market { "market_env".into() } else { "env".into() }, ticks: vec![2, 1], step_size, trading: true, seed: rng.gen(), ops, note: String::new() }
+    EnvHistory { env: if market { "market_env".into() } else { "env".into() }, ticks: vec![2, 1], step_size, trading: true, seed: rng.gen(), t0, ops, note: String::new() }
 }
 
 fn matches(f: &Failure, prop: &str) -> bool {
